@@ -213,6 +213,16 @@ func runC12(o *cli.Opts, run *evid.Run) {
 			go func() {
 				defer pw.Done()
 				out := filepath.Join(o.Scratch, fmt.Sprintf("c12-%d-%d.r1cs", di, pi))
+				if pi%2 == 1 {
+					// the export goes over an existing, longer file (an earlier export of a bigger circuit under the
+					// same name): the exported constraint system must not depend on what the path held before
+					if f, err := os.Create(out); err == nil {
+						f.WriteString("stale export of a bigger circuit\n")
+						f.Truncate(256 << 20) // sparse
+						f.Close()
+						run.Add("exports_over_existing_longer_file", 1)
+					}
+				}
 				res := proc.Run(bin, nil, 10*time.Minute, []string{"GOMAXPROCS=" + gmp}, "r1cs", "--mode", dm.mode, "--tree-depth", fmt.Sprint(dm.d), "--batch-size", fmt.Sprint(dm.b), "--output", out)
 				if res.Exit != 0 {
 					run.Violate(fmt.Sprintf("%s/r1cs-proc/%d", key, pi), fmt.Sprintf("`gnark-mbu r1cs` exits %d: %s", res.Exit, tailOf(res.Stderr)), nil)
@@ -224,7 +234,11 @@ func runC12(o *cli.Opts, run *evid.Run) {
 					run.Violate(fmt.Sprintf("%s/r1cs-proc/%d", key, pi), "cannot read r1cs output: "+err.Error(), nil)
 					return
 				}
-				dg.add(fmt.Sprintf("process r1cs GOMAXPROCS=%s #%d", gmp, pi), d)
+				src := fmt.Sprintf("process r1cs GOMAXPROCS=%s #%d", gmp, pi)
+				if pi%2 == 1 {
+					src += " (over an existing longer file)"
+				}
+				dg.add(src, d)
 			}()
 		}
 		// CLI setup keys file
